@@ -58,10 +58,14 @@ pub fn plural_source(r: &mut Rng) -> String {
             t.references.push((name, E::UtxoRef(hx(&[0x70 + k as u8; 32]), r.below(4))));
         }
         let mut sg = t.signers.take().unwrap_or_default();
-        for k in 0..(2 + r.below(3)) {
-            sg.push(E::Hex(hx(&[0x50 + (r.below(200) as u8) % 40 + k as u8; 28])));
+        // signers from a small pool (parties and three keys): several distinct ones, and now and then one twice
+        for _ in 0..(3 + r.below(3)) {
+            if r.chance(1, 2) {
+                sg.push(E::Hex(hx(&[0x50 + r.below(3) as u8; 28])));
+            } else {
+                sg.push(E::Id(r.pick(&parties).clone()));
+            }
         }
-        sg.push(E::Id(r.pick(&parties).clone()));
         t.signers = Some(sg);
         let mut md = t.metadata.take().unwrap_or_default();
         for _ in 0..(2 + r.below(3)) {
